@@ -3,11 +3,70 @@
 From Coq Require Import List ZArith NArith Bool Lia.
 From RecordUpdate Require Import RecordSet.
 From PC.Base Require Import Assoc.
-From PC.Sup Require Import Model Monitors Tactics Sim ObsFacts Effects RelCore LemC02 RelC02t RelC02b RelC02c RelC02d.
+From PC.Sup Require Import Model Monitors Tactics Sim ObsFacts Effects RelCore LemC02 RelC02defs RelC02t RelC02t2 RelC02t3 RelC02b RelC02c RelC02d RelC02d2.
 Import ListNotations RecordSetNotations.
 
 Section F.
 Context (cs : amap pconf).
+
+(* ---- joiners of the heavy files: Rt and the own-thread events -------------------------------------------- *)
+Lemma Rt_step_core s o th e s' : Rc cs s o -> Rt s o -> step_core s th e = Some s' -> Rt s' (obs_step cs o (th, e)).
+Proof.
+  intros HRc HRt H.
+  assert (Hle : obs_le o (obs_step cs o (th, e))).
+  { apply obs_step_le. intros i n ->. cbn in H. unfold step_reg in H. break_step H.
+    apply negb_true_iff in E0. unfold has in E0. destruct (get i (insts s)) eqn:Ei; [discriminate|].
+    eapply rc_noinst; eauto. }
+  assert (Hoi : forall i, get i (insts s) <> None -> exists xo, get i (oi o) = Some xo).
+  { intros i Hi. destruct (get i (insts s)) as [x|] eqn:Ex; [|congruence].
+    destruct (rc_inst _ _ _ HRc _ _ Ex) as (xo & Exo & _). eauto. }
+  assert (Hev : ev_facts (obs_step cs o (th, e)) e).
+  { destruct e; cbn [ev_facts]; auto.
+    - (* EProcEnd *) cbn in H. unfold step_procend in H. destruct (get i (insts s)) as [x|] eqn:Ex; [|discriminate].
+      destruct (Hoi i) as (xo & Exo); [congruence|]. eapply endst_ProcEnd; eauto.
+    - (* ENoRestart *) cbn in H. unfold step_api in H.
+      destruct (Hoi i) as (xo & Exo); [|eapply sreq_NoRestart; eauto].
+      apply (rt_apc _ _ HRt th). break_step H; split_andb; subst; eauto.
+    - (* EStopPending *) cbn in H. unfold step_stop in H. destruct (get i (insts s)) as [x|] eqn:Ex; [|discriminate].
+      destruct (Hoi i) as (xo & Exo); [congruence|]. eapply sreq_StopPending; eauto.
+    - (* EShutdownOrder *) intros i Hm. pose proof Hm as Hi. cbn in H. unfold step_shutdown in H. break_step H.
+      apply memN_In in Hi. apply (same_members_in _ _ _ E0) in Hi. apply in_map_iff in Hi. destruct Hi as (p & Ep & Hp).
+      destruct (Hoi i) as (xo & Exo); [rewrite <- Ep; apply (rt_run _ _ HRt _ Hp)|].
+      eapply sreq_ShutdownOrder; eauto. }
+  pose proof (has_step _ _ _ _ H) as Hh.
+  pose proof (Rt_obs_le _ _ _ HRt Hle) as HRt'.
+  destruct (step_core_kind _ _ _ _ H) as [? ?|i x ? ? ? ? ? ?|H0|H0|H0|i s0 ? H0|i s0 b ? H0|H0|i ? H0|H0|H0]; subst.
+  - exact HRt'.
+  - destruct HRt' as [G1 Ga Gb G2 G3 G4 G5 G6]. constructor; auto.
+  - exact (Rt_step_reg _ _ _ _ _ HRt' Hh H0).
+  - exact (Rt_step_api _ _ _ _ _ HRt' Hev Hh H0).
+  - exact (Rt_step_stop _ _ _ _ _ HRt' Hev Hh H0).
+  - exact (Rt_step_state _ _ _ _ _ _ HRt' Hh H0).
+  - exact (Rt_step_procend _ _ _ _ _ _ _ HRt' Hev Hh H0).
+  - exact (Rt_step_shutdown _ _ _ _ _ HRt' Hev Hh H0).
+  - exact (Rt_step_ordered _ _ _ _ _ HRt' Hh H0).
+  - exact (Rt_step_env _ _ _ _ _ HRt' Hh H0).
+  - exact (Rt_step_own _ _ _ _ _ HRt' Hh H0).
+Qed.
+
+Lemma Rt_step s o th e s' : Rc cs s o -> Rt s o -> step s (th, e) = Some s' -> Rt s' (obs_step cs o (th, e)).
+Proof.
+  intros HRc HRt H. unfold step in H. cbn [fst snd] in H.
+  eapply Rt_step_core; [|apply Rt_flush, HRt|exact H].
+  eapply Rc_sys_same; [exact HRc|apply sys_same_flush].
+Qed.
+
+
+
+(* all own events that the observer's instance records do not react to *)
+Lemma P2all_own s o th e s' : Rc cs s o -> P2all s o -> oirr e = true -> step_own s th e = Some s' -> P2all s' o.
+Proof.
+  intros HRc HP Hirr H. destruct (own_special e) eqn:Hsp; [|eapply P2all_own_gen; eauto].
+  destruct e; try discriminate Hsp;
+    eauto using P2all_own_wait, P2all_own_code, P2all_own_decision, P2all_own_backoff, P2all_own_cancel.
+Qed.
+
+
 
 (* a stop request for instance x arrives: the observer records it, the model may set isStopped *)
 Lemma P2_stopreq s o x xo s' o' xo' (b : bool) :
@@ -215,7 +274,7 @@ Proof.
     eapply P2all_cmdexit; eauto.
   - (* own *)
     destruct (oirr e) eqn:Hi.
-    + eapply P2all_frame; [eapply (P2all_own cs); eauto|apply sback_refl|apply obs_step_keep, Hi|exact Hwk].
+    + eapply P2all_frame; [eapply P2all_own; eauto|apply sback_refl|apply obs_step_keep, Hi|exact Hwk].
     + eapply P2all_own_obs; eauto.
 Qed.
 End F.
